@@ -325,14 +325,23 @@ def run(rep):
     tof = [n for n in ast.walk(save) if isinstance(n, ast.Call) and isinstance(n.func, ast.Attribute) and n.func.attr == "tofile"]
     rep.check(len(tof) == 1 and dotted(tof[0].func.value) in ("self._data", "self.data"), "R13.d", rel, "Grid.save",
               "raw data = self._data.tofile(filename)", ast.unparse(tof[0]) if tof else "no tofile call", line=save.lineno)
-    ff = [n for n in ast.walk(load) if isinstance(n, ast.Call) and dotted(n.func) == "np.fromfile"]
-    okff = len(ff) == 1 and len(ff[0].args) >= 2
+    from .. import pq
+    ffs = set()
+    for p_ in pq.PEval().run(load):
+        for e in p_.effects:
+            if e.kind == 'attr' and e.target == "self._data":
+                ffs |= set(pq.find(e.val, lambda x: pq.call_named(x, "fromfile")))
+
+    def _ff_dtype(f):
+        kw = dict(f[3]) if len(f) > 3 else {}
+        return f[2][1] if len(f[2]) >= 2 else kw.get("dtype")
+    okff = len(ffs) == 1 and all(_ff_dtype(f) is not None for f in ffs)
     rep.check(okff, "R13.d", rel, "Grid.load", "raw data read with np.fromfile(stream, <dtype>)", "", line=load.lineno)
     # the byte order decoded from the header must reach the read: a numpy scalar *type* has no byte order
     bo_used = False
     if okff:
-        dt_txt = ast.unparse(ff[0].args[1])
-        bo_used = "byteorder" in dt_txt or "newbyteorder" in ast.unparse(load)
+        dtv = _ff_dtype(next(iter(ffs)))
+        bo_used = pq.mentions(dtv, lambda x: x == ('sym', 'byteorder'))
     type_drop = [n for n in ast.walk(fs) if isinstance(n, ast.Attribute) and n.attr == "type" and "byteorder" in ast.unparse(n.value)]
     passes_bo = any(isinstance(n, ast.Call) and isinstance(n.func, ast.Attribute) and n.func.attr == "load" and
                     "byteorder" in ast.unparse(n) for n in ast.walk(fs))
